@@ -31,8 +31,8 @@ EPS = sys.float_info.epsilon
 MAXSIZE = sys.maxsize
 
 SIZES = {
-    "quick": {"workload": 220, "workers": 80, "policy": 160, "fuzz": 250, "search": 150},
-    "thorough": {"workload": 3000, "workers": 800, "policy": 2000, "fuzz": 4000, "search": 1500},
+    "quick": {"workload": 800, "workers": 300, "policy": 600, "fuzz": 1000, "search": 300},
+    "thorough": {"workload": 10000, "workers": 3000, "policy": 8000, "fuzz": 20000, "search": 3000},
 }
 
 # ---------------------------------------------------------------------------
@@ -306,7 +306,7 @@ def well_formed(case):
         elif pol == "fixed":
             if period is None or (n_inv is None and not fl.get("n")):
                 return False
-            if (fl.get("n") or n_inv) < 0:
+            if (fl.get("n") or n_inv) < 0 or period < 0:
                 return False
         elif pol == "poisson":
             if (g["rate"] is None and not fl.get("rate")) or n_inv is None or n_inv < 0:
